@@ -504,6 +504,32 @@ def op_zero_incompat(res, qkind, qspec, ts):
                       case, got, "exception")
 
 
+def op_zero_reg(res, qkind, qspec, mag, ridx):
+    """a dimensionless value (number, dimensionless quantity, ratio of two units of one dimension such as metre/kilometre) in a
+    base registry: its magnitude is the pure number, whatever the registry"""
+    cu = E()["cu"]
+    qspec = tuple(qspec) if qspec else None
+    fq = Fr(1) if qkind != "ratio" else A.base(qspec[0], qspec[1]).f / A.base(qspec[0], qspec[2]).f
+    q = _zero_value(qkind, qspec, mag)
+    regs = A.registries()
+    choice = regs[ridx % len(regs)]
+    reg = A.registry_real(choice, E()["u"])
+    ref = float(Fr(mag) * fq)
+    case = dict(op="zero_reg", args=[qkind, list(qspec) if qspec else None, mag, ridx])
+    res.states += 1
+    res.transitions += 1
+    res.evaluations += 1
+    if fq != 1:
+        res.nontrivial += 1
+    got = _obs(lambda: cu.unitless_in_registry(q, reg))
+    if _isexc(got) or not A.close(got, ref, RTOL):
+        res.outcomes["zero-reg-WRONG"] += 1
+        res.violation("C09|unitless_in_registry|dimensionless-value|%s" % ("raises" if _isexc(got) else "wrong-magnitude"),
+                      "unitless_in_registry(%s %s%r, registry #%d) = %r, the pure number is %r" % (mag, qkind, qspec, ridx, got, ref), case, got, ref)
+    else:
+        res.outcomes["zero-reg-ok|" + _ratio_class(fq)] += 1
+
+
 def _layer_Z(res):
     rs = _ratios()
     targets = [(k, None) for k in SPECIAL_TARGETS] + [(k, s) for k, s, _ in rs if k == "ratio"]
@@ -513,6 +539,8 @@ def _layer_Z(res):
             if qkind == "int" and mag != "3":
                 continue
             op_zero_dim(res, qkind, qspec, mag)
+            for ridx in (0, 77, 215):
+                op_zero_reg(res, qkind, qspec, mag, ridx)
             for tkind, tspec in targets:
                 op_zero(res, qkind, qspec, tkind, tspec, mag)
         for ts in singles:
@@ -1161,6 +1189,37 @@ def op_tile(res, fam, kind, ia, ib, reps):
                    shown, refv.tolist())
 
 
+def op_long(res, fam, kind, n, pattern):
+    """long containers (n = 16..40 scalar quantities in the units of one family, by several placement patterns): converted
+    element-wise with the exact ratio, through to_unitless (target: the first unit of the family) and uniform"""
+    cu, np = E()["cu"], E()["np"]
+    name, ev, units = _fam(fam)
+    nu = len(units)
+    if pattern == "cycle":
+        idxs = [p % nu for p in range(n)]
+    elif pattern == "ends-equal":  # first and last element in one unit, the others in another
+        idxs = [0] + [1 % nu] * (n - 2) + [0]
+    else:  # "one-odd": all in one unit except a single element in the middle
+        idxs = [0] * n
+        idxs[n // 2] = nu - 1
+    els = [float(_HV[p % 6]) * units[i][1] for p, i in enumerate(idxs)]
+    ref_si = [float(_HV[p % 6] * units[i][2].f) for p, i in enumerate(idxs)]
+    case = dict(op="long", args=[fam, kind, n, pattern])
+    res.states += 1
+    res.transitions += n
+    res.nontrivial += 1
+    cont = list(els) if kind == "list" else tuple(els)
+    target = units[0]
+    got = _obs(lambda: cu.to_unitless(cont, target[1]))
+    want = [r / float(target[2].f) for r in ref_si]
+    ok = (not _isexc(got)) and len(got) == n and all(A.close(float(g), w, RTOL) for g, w in zip(got, want))
+    _helper_result(res, "to_unitless[long %s]" % kind, ok, case, "to_unitless(%s of %d quantities, units by pattern %r, %s) = %r; element-wise %r" % (
+        kind, n, pattern, target[0], got if _isexc(got) else [float(g) for g in got][:6], want[:6]), got if _isexc(got) else [float(g) for g in got], want)
+    got = _obs(lambda: cu.uniform(cont))
+    ok2, shown = _si_ok(got, ref_si, ev, RTOL)
+    _helper_result(res, "uniform[long %s]" % kind, ok2, case, "uniform(%s of %d quantities, pattern %r) = %r; SI values %r" % (kind, n, pattern, shown if _isexc(shown) else "...", ref_si[:6]), shown, ref_si)
+
+
 def op_uniform(res, fam, kind, idxs):
     """uniform(): every element keeps its physical value and all end up in the unit of the first"""
     cu = E()["cu"]
@@ -1403,6 +1462,10 @@ def _layer_H1(res, helper):
             for kind in ("list", "tuple", "dict"):
                 for idxs in list(itertools.product(n, repeat=2)) + list(itertools.product(n, repeat=3)):
                     op_uniform(res, name, kind, idxs)
+            for kind in ("list", "tuple"):
+                for ln in (16, 17, 18, 33, 40):
+                    for pattern in ("cycle", "ends-equal", "one-odd"):
+                        op_long(res, name, kind, ln, pattern)
     elif helper == "allclose":
         for name, ev, units in fams:
             n = range(len(units))
@@ -1470,10 +1533,10 @@ def run_chunk(chunk, tier):
     return res
 
 
-OPS = dict(conv=op_conv, triple=op_triple, dim=op_dim, incompat=op_incompat, zero=op_zero, zero_dim=op_zero_dim, zero_incompat=op_zero_incompat,
+OPS = dict(conv=op_conv, triple=op_triple, dim=op_dim, incompat=op_incompat, zero=op_zero, zero_reg=op_zero_reg, zero_dim=op_zero_dim, zero_incompat=op_zero_incompat,
            reg=op_reg, derived=op_derived, derived_seq=op_derived_seq, hr=op_hr, derived_none=op_derived_none, hr_none=op_hr_none, cont=op_cont,
            backend_ratio=op_backend_ratio, backend_dim=op_backend_dim, chem=op_chem, chem_pair=op_chem_pair,
-           spacing=op_spacing, spacing_plain=op_spacing_plain, concat=op_concat, tile=op_tile, uniform=op_uniform, allclose=op_allclose,
+           spacing=op_spacing, spacing_plain=op_spacing_plain, concat=op_concat, tile=op_tile, uniform=op_uniform, long=op_long, allclose=op_allclose,
            polyfit=op_polyfit, polyval=op_polyval, cmp=op_cmp)
 
 
